@@ -31,3 +31,12 @@ Theorem C14_seq_wrap_instance :
   [ [0;12]; 0 :: [1;2;3;4;5;6;7;8;9;10]; [0;10]; 0 :: [11;12;13;14;15;16;17;18;19;20;21;22]; [0;12]; [22;22;10;0] ]%N.
 Proof. exact ProofsExamples.seq_wrap_instance. Qed.
 Print Assumptions C14_seq_wrap_instance.
+
+(* ---- the source functions themselves: Gallina translations regenerated from /repo on every run (Gen/Translated.v)
+   equal the model functions the theorems above are about, for every input, and never panic ---- *)
+From Trans Require Spec Equiv.
+
+(* the ring size test of newBuffer: powerOfTwo64 is true exactly on the powers of two *)
+Theorem C14_powerOfTwo : Trans.Spec.T_powerOfTwo.
+Proof. exact Trans.Equiv.powerOfTwo_equiv. Qed.
+Print Assumptions C14_powerOfTwo.
